@@ -47,7 +47,8 @@ InnerSig(sg) == sg \in Inner3 \cup {"REFLECTION_SIGNAL", "EMPTY_SIGNAL", "SEARCH
 (* The chart table *)
 SigIdx(sg)      == CHOOSE k \in 1..Len(chart.sigs) : chart.sigs[k] = sg
 React(st, sg)   == chart.react[st][SigIdx(sg)]                  \* <<kind, target>>
-Answers(st, sg) == React(st, sg)[1] \in {"hook", "tran"}
+(* "null": the handler answers return_status.NULL ("no side effects") - it answers the event, nothing else happens *)
+Answers(st, sg) == React(st, sg)[1] \in {"hook", "tran", "null"}
 BadInit(st)     == chart.bad # <<>> /\ chart.bad[1] = "init" /\ chart.bad[2] = st
 BadNone(st, sg) == chart.bad # <<>> /\ chart.bad[1] = "none" /\ chart.bad[2] = st /\ chart.bad[3] = sg
 Eff(st, sg) ==
@@ -80,7 +81,7 @@ RefStep(c, sg) ==
       last   == IF offers = <<>> THEN 0 ELSE offers[Len(offers)]
   IN IF last # 0 /\ BadNone(last, sg) THEN [calls |-> Tag(sg, offers), cur |-> c, kind |-> "raise"]
      ELSE IF last = 0 \/ ~Answers(last, sg) THEN [calls |-> Tag(sg, offers), cur |-> c, kind |-> "ignored"]
-     ELSE IF React(last, sg)[1] = "hook" THEN [calls |-> Tag(sg, offers), cur |-> c, kind |-> "hook"]
+     ELSE IF React(last, sg)[1] \in {"hook", "null"} THEN [calls |-> Tag(sg, offers), cur |-> c, kind |-> "hook"]
      ELSE LET T == React(last, sg)[2]
               L == LCA(chart.par, last, T)
               d == Drill(T)
@@ -154,8 +155,9 @@ Init0(c) ==
   /\ liveS = <<>> /\ liveT = <<>> /\ hist = <<>>
 
 (* start_at(S).  log = the processor's full call log of this op (only feeds the spy). *)
+(* (start_at on a chart that is already running starts it afresh: the path from top is entered again, nothing is exited) *)
 Start(S, log) ==
-  /\ ~started /\ S \in States
+  /\ S \in States
   /\ LET r     == RefStart(S)
          F     == RunCalls([q |-> q, dq |-> dq, nid |-> nid], r.calls, <<>>)
          lines == (rtc \o <<"START">>) \o LogLines(log)
@@ -243,27 +245,28 @@ ClearTrace ==
 
 (* replaying a step's exits/entries against the active path: an exit must leave the    *)
 (* innermost active state, an entry must enter a child of the innermost active state   *)
-RECURSIVE Replay(_, _)
+RECURSIVE Replay(_, _)      \* <<0>> (not a path: 0 is top) when a call does not fit
 Replay(active, calls) ==
   IF calls = <<>> THEN active
   ELSE LET c == Head(calls) IN
     IF c[1] = "EXIT_SIGNAL"
       THEN IF active # <<>> /\ active[Len(active)] = c[2] THEN Replay(SubSeq(active, 1, Len(active) - 1), Tail(calls))
-           ELSE <<"bad exit", c[2]>>
+           ELSE <<0>>
     ELSE IF c[1] = "ENTRY_SIGNAL"
       THEN IF chart.par[c[2]] = (IF active = <<>> THEN 0 ELSE active[Len(active)]) THEN Replay(Append(active, c[2]), Tail(calls))
-           ELSE <<"bad entry", c[2]>>
+           ELSE <<0>>
     ELSE IF c[1] = "INIT_SIGNAL"
-      THEN IF active # <<>> /\ active[Len(active)] = c[2] THEN Replay(active, Tail(calls)) ELSE <<"bad init", c[2]>>
+      THEN IF active # <<>> /\ active[Len(active)] = c[2] THEN Replay(active, Tail(calls)) ELSE <<0>>
     ELSE Replay(active, Tail(calls))
 
 (* UML order (C01, C03): every step's action log is well nested and ends on Path(cur') *)
-StepWellNested == (res' \notin {"raise", "fault"}) => Replay(Path(chart.par, cur), alog') = Path(chart.par, cur')
+StepWellNested == (res' \notin {"raise", "fault"}) => \/ Replay(Path(chart.par, cur), alog') = Path(chart.par, cur')
+                                                      \/ Replay(<<>>, alog') = Path(chart.par, cur')       \* start_at: entered from top, nothing exited
 WellNested == [][StepWellNested]_vars
 
-(* C02: a step that is not a transition runs no entry/exit/init and stays put *)
+(* C02: a step (did' # 0: an event was dispatched) that is not a transition runs no entry/exit/init and stays put *)
 NoActionUnlessTran ==
-  [][(cur' = cur /\ started) => \/ \A i \in 1..Len(alog') : alog'[i][1] \notin {"ENTRY_SIGNAL", "EXIT_SIGNAL"}
+  [][(cur' = cur /\ started /\ did' # 0) => \/ \A i \in 1..Len(alog') : alog'[i][1] \notin {"ENTRY_SIGNAL", "EXIT_SIGNAL"}
                                 \/ \E i \in 1..Len(alog') : alog'[i][1] = "EXIT_SIGNAL" /\ alog'[i][2] = cur]_vars
 
 RestsInLeafOfInit == started /\ res \notin {"raise", "fault"} => chart.init[cur] = 0      \* rests where no initial transition is left
